@@ -122,6 +122,19 @@ class Std:
             self.payloads[op['obj']] = dict(strong=[], weak=[], dropped=False)
             self.new_obj(op['obj'], op['obj'])
             H[op['as']] = ('rc', op['obj'])
+        elif k == 'hash':
+            # Rc<T>: Hash forwards to T::hash exactly once and feeds nothing else to the hasher
+            self.obs(op, 'thash=1,extra=0,ids=%d' % self.objs[self.h(op['h'])[1]]['pid'])
+        elif k == 'fmt_display':
+            self.obs(op, 'node%d:ok' % self.objs[self.h(op['h'])[1]]['pid'])
+        elif k == 'fmt_debug':
+            self.obs(op, 'Node(%d):ok' % self.objs[self.h(op['h'])[1]]['pid'])
+        elif k == 'fmt_pointer':
+            # prints the address of the value (what Deref / as_ptr give)
+            self.obs(op, '<ptr:value-of-self>:ok')
+        elif k == 'wfmt_debug':
+            self.h(op['w'])
+            self.obs(op, '(Weak):ok')
         elif k in ('eq', 'ne', 'lt', 'le', 'gt', 'ge', 'cmp', 'partial_cmp'):
             x = self.objs[self.h(op['a'])[1]]['pid']
             y = self.objs[self.h(op['b'])[1]]['pid']
@@ -187,6 +200,10 @@ class Std:
             _, own = self.h(op['via'])
             i = self.payloads[self.objs[own]['pid']]['weak'].pop(op['slot'])
             H[op['as']] = ('weak', i)
+        elif k in ('self_take', 'self_take_weak'):
+            pl = self.payloads[self.dtor_stack[-1]]
+            i = pl['strong' if k == 'self_take' else 'weak'].pop(op['slot'])
+            H[op['as']] = ('rc' if k == 'self_take' else 'weak', i)
         elif k == 'downgrade':
             _, i = self.h(op['h'])
             self.objs[i]['weak'] = s_add(self.objs[i]['weak'], 1)
